@@ -65,8 +65,7 @@ type Engine struct {
 	sizes            types.Sizes
 	needsInit        map[*ssa.Global]string // globals of non-initialised packages that have initialisers
 
-	harnessMu sync.Mutex
-	harnessFn map[*ssa.Function]bool
+	harnessFnM sync.Map
 
 	LoadTime time.Duration
 
@@ -143,7 +142,7 @@ func Load(cfg Config) (*Engine, error) {
 	}
 	prog, pkgs := ssautil.AllPackages(initial, ssa.InstantiateGenerics|ssa.SanityCheckFunctions&0)
 	prog.Build()
-	e := &Engine{Cfg: cfg, prog: prog, byPkg: map[string]*ssa.Package{}, harnessFn: map[*ssa.Function]bool{},
+	e := &Engine{Cfg: cfg, prog: prog, byPkg: map[string]*ssa.Package{},
 		unknowns: map[string]int{}, needsInit: map[*ssa.Global]string{}}
 	for _, p := range pkgs {
 		if p != nil {
